@@ -205,6 +205,9 @@ func (d *Data) GetOptions(id string) (opts []FieldOpt, ok bool) {
 // If the value has not been set yet and no default value exists, ok will be
 // false.
 func (d *Data) Get(id string) (v interface{}, ok bool) {
+	if d == nil {
+		return nil, false
+	}
 	v, ok = d.values[id]
 	if ok {
 		return v, ok
